@@ -334,6 +334,44 @@ def r14c(ctx, rep, cr):
     rep.floor('R14c', 'value sink sites', nv, 2)
 
 
+def r14e(ctx, rep, cr):
+    rep.rule('R14e', 'a grant\'s deadline is forgotten only by expiry or revocation: entries leave GrantTTLTracker.heap only in '
+                     'get_expired (each pop behind a must-pass expires_at <= now test), remove (revocation) and clear; no other tracker '
+                     'method removes entries — every grant adds its own access edge, and an edge whose deadline was dropped never expires')
+    T = 'tensor_vault::ttl::GrantTTLTracker'
+    allowed = {T + '::get_expired', T + '::remove', T + '::clear'}
+    REM = re.compile(r'BinaryHeap::<T, A>::(pop|retain|clear|drain|drain_sorted|into_vec|into_sorted_vec|append)$|BinaryHeap::<T>::(pop|retain|clear|drain|into_vec|into_sorted_vec)$|PeekMut.*::pop$')
+    n = 0
+    for name, f in cr.fns.items():
+        if not name.startswith(T + '::'):
+            continue
+        rems = [c for c in A.calls(f) if REM.search(c.generic) or REM.search(c.resolved)]
+        if not rems:
+            continue
+        n += 1
+        rep.analysed(f)
+        owner = A.parent_fn(name)
+        if owner not in allowed:
+            rep.violation('R14e', f, 'deadline-dropped', f.loc(rems[0].line),
+                          '%s removes entries from the TTL heap (%s): a still-pending deadline of an earlier grant is forgotten, so that grant\'s '
+                          'access edge outlives its TTL' % (lib.short(owner), rems[0].generic.split('::')[-1]))
+            continue
+        if owner == T + '::get_expired':
+            defs, cd = A.Defs(f), A.control_deps(f)
+            for c in rems:
+                nc = A.necessary_condition_sources(f, c.bb, defs, cd)
+                ok = any(any(x.endswith('GrantTTLEntry.expires_at') for x in sl.fields) and any('Instant' in y and 'now' in y for y in sl.calls | {z for z in sl.calls})
+                         or (any(x.endswith('GrantTTLEntry.expires_at') for x in sl.fields) and (sl.binops & {'Le', 'Lt', 'Ge', 'Gt'} or any(re.search(r'PartialOrd.*::(le|lt|ge|gt)$', z) for z in sl.calls)))
+                         for (_, _, sl) in nc)
+                if ok:
+                    rep.holds('R14e', f, 'pop only if expired', '')
+                else:
+                    rep.violation('R14e', f, 'pop-unexpired', f.loc(c.line), 'get_expired pops an entry without a must-pass comparison of its expires_at with now')
+        else:
+            rep.holds('R14e', f, 'allowed remover', lib.short(owner))
+    rep.floor('R14e', 'TTL heap removal sites', n, 2)
+
+
 def run(ctx, rep):
     cr = ctx.crate('tensor_vault')
     cg = ctx.callgraph(['tensor_vault'])
@@ -341,3 +379,4 @@ def run(ctx, rep):
     r14d(ctx, rep, cr, cg)
     r14b(ctx, rep, cr)
     r14c(ctx, rep, cr)
+    r14e(ctx, rep, cr)
